@@ -106,6 +106,12 @@ var subcommands = map[string]func(common){
 	"tbl-authresp": func(c common) { table(c, tbldrv.AuthResponseCase) },
 	"tbl-codec": func(c common) { table(c, tbldrv.CodecCase) },
 	"tbl-discovery": func(c common) { tbldrv.DiscWorldPath = c.world; table(c, tbldrv.DiscoveryCase) },
+	"tbl-isolation": func(c common) {
+		tbldrv.DiscWorldPath = c.world
+		n, err := tbldrv.Run(c.in, c.out, 1, tbldrv.IsolationCase) // one case at a time: the cases observe package-level state
+		check(err)
+		fmt.Printf("EXECUTED cases=%d\n", n)
+	},
 	"tbl-handler": func(c common) { tbldrv.HandlerWorldPath = c.world; table(c, tbldrv.HandlerCase) },
 	"tbl-faults": func(c common) { tbldrv.FaultWorldPath = c.world; table(c, tbldrv.FaultCase) },
 }
